@@ -51,6 +51,8 @@ void coop_call_end(void);
 /* callback when the scheduler detects a deadlock or exhausted step budget; must not return */
 extern void (*coop_on_stuck)(const char *kind, const char *state);
 int64_t coop_now_ns(void);
+/* scheduling point for a blocking system call (write/fsync) issued by a managed thread */
+void coop_preempt(void);
 /* the next pthread_create is issued by the harness for an application thread (not by the library) */
 void coop_mark_app_thread(void);
 
